@@ -85,9 +85,13 @@ type Config struct {
 	Preempts []int  // dynamic Step indices at which the running task is preempted (sorted)
 	Selects  []int  // pinned choices among the ready cases of select statements
 	Sticky   int    // 0..100: probability (percent) of continuing with the task that ran last when it is ready
-	MaxSteps int64  // abort the run when more Step calls than this were made (0 = 2e6)
-	MaxSyncs int64  // abort the run after this many scheduling decisions (0 = 2e6)
-	Idle     time.Duration
+	// UnlockYield 0..100: probability (percent) that a task which has just released a mutex others
+	// are waiting for gives way at once. The window right after an unlock is where "one more thing
+	// done outside the lock" goes wrong, and a task otherwise keeps running until it next blocks.
+	UnlockYield int
+	MaxSteps    int64 // abort the run when more Step calls than this were made (0 = 2e6)
+	MaxSyncs    int64 // abort the run after this many scheduling decisions (0 = 2e6)
+	Idle        time.Duration
 	// KeepLog retains the textual event log (replay / debugging); the hash is always kept.
 	KeepLog bool
 }
@@ -104,8 +108,9 @@ type task struct {
 
 // Sim is one simulated run.
 type Sim struct {
-	cfg Config
-	rng *rand.Rand
+	cfg  Config
+	rng  *rand.Rand
+	yrng *rand.Rand // unlock-yield decisions: a stream of its own (pinned replays do not draw from rng)
 
 	mu      sync.Mutex
 	tasks   map[uint64]*task // by goroutine id
@@ -159,6 +164,7 @@ func New(cfg Config) *Sim {
 	s := &Sim{
 		cfg:     cfg,
 		rng:     rand.New(rand.NewPCG(cfg.Seed, 0x5eed)),
+		yrng:    rand.New(rand.NewPCG(cfg.Seed, 0x7e1d)),
 		tasks:   map[uint64]*task{},
 		ready:   map[string]*task{},
 		ordinal: map[string]int{},
@@ -485,6 +491,20 @@ func (s *Sim) armPreemptLocked() {
 		s.nextPreempt.Store(int64(s.cfg.Preempts[s.preIdx]))
 	} else {
 		s.nextPreempt.Store(-1)
+	}
+}
+
+// unlockYield is called by the mutexes after an unlock that woke waiters.
+func unlockYield(site string) {
+	s := cur.Load()
+	if s == nil || s.cfg.UnlockYield <= 0 {
+		return
+	}
+	s.mu.Lock()
+	yes := int(s.yrng.Uint64()%100) < s.cfg.UnlockYield
+	s.mu.Unlock()
+	if yes {
+		Sync(site)
 	}
 }
 
